@@ -30,10 +30,10 @@ pub(crate) mod verif_cmd {
     pub fn fmtwrite_cut(_o: &mut dyn core::fmt::Write, _a: core::fmt::Arguments<'_>) -> core::fmt::Result { Ok(()) }
     pub fn format_cut(_a: core::fmt::Arguments<'_>) -> String { String::from("F") }
     pub fn bt_cut() -> std::backtrace::Backtrace { std::backtrace::Backtrace::disabled() }
-    pub static mut PRINTS: usize = 0;
-    pub static mut EPRINTS: usize = 0;
-    pub fn print_cut(_a: core::fmt::Arguments<'_>) { unsafe { PRINTS += 1; } }
-    pub fn eprint_cut(_a: core::fmt::Arguments<'_>) { unsafe { EPRINTS += 1; } }
+    pub static mut PRINTS: crate::Z8 = crate::Z8(0);
+    pub static mut EPRINTS: crate::Z8 = crate::Z8(0);
+    pub fn print_cut(_a: core::fmt::Arguments<'_>) { unsafe { PRINTS.0 += 1; } }
+    pub fn eprint_cut(_a: core::fmt::Arguments<'_>) { unsafe { EPRINTS.0 += 1; } }
 
     // ---------------------------------------------------------------- E-FS: the output path "o"
     pub const N: usize = 8;
@@ -45,13 +45,13 @@ pub(crate) mod verif_cmd {
     pub static mut OO_CREATE: bool = false;
     pub static mut OO_TRUNC: bool = false;
     pub static mut OO_WRITE: bool = false;
-    pub static mut IN_OPENS: usize = 0;
+    pub static mut IN_OPENS: crate::Z8 = crate::Z8(0);
 
     pub fn create_model<P: AsRef<Path>>(_p: P) -> std::io::Result<File> {
         unsafe { FS.exists = true; FS.len = 0; FS.pos = 0; FS.append = false; FS.creates += 1; Ok(File::from_raw_fd(7)) }
     }
     pub fn open_model<P: AsRef<Path>>(_p: P) -> std::io::Result<File> {
-        unsafe { IN_OPENS += 1; if IN_EXISTS { Ok(File::from_raw_fd(8)) } else { Err(std::io::Error::from(std::io::ErrorKind::NotFound)) } }
+        unsafe { IN_OPENS.0 += 1; if IN_EXISTS { Ok(File::from_raw_fd(8)) } else { Err(std::io::Error::from(std::io::ErrorKind::NotFound)) } }
     }
     /// unlink / rename on the output path (the only path these harnesses ever hand to a command that could be removed)
     pub fn remove_model<P: AsRef<Path>>(_p: P) -> std::io::Result<()> {
@@ -122,12 +122,12 @@ pub(crate) mod verif_cmd {
     pub static mut TTY_IN: bool = false;
     pub fn isatty_model(s: Stream) -> bool { match s { Stream::Stdin => unsafe { TTY_IN }, _ => unsafe { TTY_OUT } } }
     pub static mut ASK_FAIL: bool = false;
-    pub static mut ASKS: usize = 0;
-    pub static mut FS_TOUCHED_AT_ASK: usize = 0;
+    pub static mut ASKS: crate::Z8 = crate::Z8(0);
+    pub static mut FS_TOUCHED_AT_ASK: crate::Z8 = crate::Z8(0);
     pub fn ask_pass_model(_prompt: &str, _env: bool) -> Result<ZeroedString, anyhow::Error> {
         unsafe {
-            ASKS += 1;
-            FS_TOUCHED_AT_ASK = FS.creates + FS.writes + FS.appends_opened;
+            ASKS.0 += 1;
+            FS_TOUCHED_AT_ASK.0 = FS.creates + FS.writes + FS.appends_opened;
             if ASK_FAIL { return Err(anyhow::Error::msg("no password")); }
         }
         // (two branches with concrete-length strings: a symbolic-length copy is mis-modelled by the back end)
@@ -140,18 +140,18 @@ pub(crate) mod verif_cmd {
     }
 
     // ---------------------------------------------------------------- E-RNG + key material recorders
-    pub static mut RNG_N: usize = 0;
+    pub static mut RNG_N: crate::Z8 = crate::Z8(0);
     pub static mut RNG_OUT: [[u8; 32]; 2] = [[0; 32]; 2];
     pub static mut RNG_LEN_OK: bool = true;
     pub fn rng_model(len: usize) -> Vec<u8> {
         unsafe {
             if len != 32 { RNG_LEN_OK = false; }
-            assert!(RNG_N < 2, "[LIMIT] harness bound: two CSPRNG draws per command");
+            assert!(RNG_N.0 < 2, "[LIMIT] harness bound: two CSPRNG draws per command");
             let o: [u8; 32] = kani::any();
             // RNG contract: draws are pairwise distinct
-            if RNG_N == 1 { kani::assume(!eq32(&o, &RNG_OUT[0])); }
-            RNG_OUT[RNG_N] = o;
-            RNG_N += 1;
+            if RNG_N.0 == 1 { kani::assume(!eq32(&o, &RNG_OUT[0])); }
+            RNG_OUT[RNG_N.0] = o;
+            RNG_N.0 += 1;
             let mut v = o.to_vec();
             v.truncate(if len < 32 { len } else { 32 });
             v
@@ -159,52 +159,52 @@ pub(crate) mod verif_cmd {
     }
     pub static mut DERIVE_IN: [u8; 32] = [0; 32];
     pub static mut DERIVE_OUT: [u8; 32] = [0; 32];
-    pub static mut DERIVE_N: usize = 0;
+    pub static mut DERIVE_N: crate::Z8 = crate::Z8(0);
     pub fn derive_model(sk: &[u8]) -> Result<Vec<u8>, kestrel_crypto::errors::DhError> {
         unsafe {
-            DERIVE_N += 1;
+            DERIVE_N.0 += 1;
             if sk.len() == 32 { DERIVE_IN.copy_from_slice(sk); }
             let o: [u8; 32] = kani::any();
             DERIVE_OUT = o;
             Ok(o.to_vec())
         }
     }
-    pub static mut LOCK_N: usize = 0;
+    pub static mut LOCK_N: crate::Z8 = crate::Z8(0);
     pub static mut LOCK_SK: [u8; 32] = [0; 32];
     pub static mut LOCK_PW0: u8 = 0;
     pub static mut LOCK_PW1: u8 = 0;
-    pub static mut LOCK_PWLEN: usize = 0;
+    pub static mut LOCK_PWLEN: crate::Z8 = crate::Z8(0);
     pub static mut LOCK_SALT: [u8; 32] = [0; 32];
     pub fn lock_model(sk: &PrivateKey, pw: &[u8], salt: [u8; 32]) -> EncodedSk {
         unsafe {
-            LOCK_N += 1;
+            LOCK_N.0 += 1;
             LOCK_SK.copy_from_slice(sk.as_bytes());
-            LOCK_PWLEN = pw.len();
+            LOCK_PWLEN.0 = pw.len();
             if pw.len() > 0 { LOCK_PW0 = pw[0]; }
             if pw.len() > 1 { LOCK_PW1 = pw[1]; }
             LOCK_SALT = salt;
         }
         mk_sk("S")
     }
-    pub static mut ENCPK_N: usize = 0;
+    pub static mut ENCPK_N: crate::Z8 = crate::Z8(0);
     pub static mut ENCPK_IN: [u8; 32] = [0; 32];
     pub fn encpk_model(pk: &PublicKey) -> EncodedPk {
-        unsafe { ENCPK_N += 1; ENCPK_IN.copy_from_slice(pk.as_bytes()); }
+        unsafe { ENCPK_N.0 += 1; ENCPK_IN.copy_from_slice(pk.as_bytes()); }
         mk_pk("P0")
     }
-    pub static mut SER_N: usize = 0;
+    pub static mut SER_N: crate::Z8 = crate::Z8(0);
     pub fn ser_model(_n: &str, pk: &EncodedPk, sk: &EncodedSk) -> String {
-        unsafe { SER_N += 1; }
+        unsafe { SER_N.0 += 1; }
         String::from("K")
     }
-    pub static mut UNLOCK_N: usize = 0;
+    pub static mut UNLOCK_N: crate::Z8 = crate::Z8(0);
     pub static mut UNLOCK_FAIL: bool = false;
     pub static mut UNLOCK_SK: [u8; 32] = [0; 32];
     pub static mut UNLOCK_PW0: u8 = 0;
     pub static mut UNLOCK_BLOB0: u8 = 0;
     pub fn unlock_model(locked: &EncodedSk, pw: &[u8]) -> Result<PrivateKey, crate::errors::KeyringError> {
         unsafe {
-            UNLOCK_N += 1;
+            UNLOCK_N.0 += 1;
             if pw.len() > 0 { UNLOCK_PW0 = pw[0]; }
             let b = locked.as_str().as_bytes();
             if b.len() > 0 { UNLOCK_BLOB0 = b[0]; }
@@ -255,6 +255,7 @@ pub(crate) mod verif_cmd {
         let written = (if ops[0] % 3 == 0 { 1 } else { 0 }) + (if ops[1] % 3 == 0 { 1 } else { 0 }) + (if ops[2] % 3 == 0 { 1 } else { 0 });
         unsafe { if touched > 0 { assert!(FS.len == written, "[C12,C13,C01,C06,C08] the output file holds exactly the bytes written to it: an existing longer file is replaced, not overwritten in place (no stale tail)"); } }
         core::mem::forget(f);
+        crate::keyring::verif_keyring::env_guard();
     }
 
     // ================================================================= key generate
@@ -337,17 +338,18 @@ pub(crate) mod verif_cmd {
                 }
                 assert!(FS.flushes >= 1, "[C12] the keyring is flushed before success is reported");
                 // C07/C16: data flow of the fresh randomness
-                assert!(RNG_N == 2 && RNG_LEN_OK, "[C07] key generation makes exactly two 32-byte CSPRNG draws: the private key and the salt");
-                assert!(LOCK_N == 1 && eq32(&LOCK_SK, &RNG_OUT[0]) && eq32(&LOCK_SALT, &RNG_OUT[1]), "[C07,C16] the private key is one draw, locked under a salt that is another draw");
-                assert!(LOCK_PW0 == b'p' && ((!PASS_SPACE && LOCK_PWLEN == 1) || (PASS_SPACE && LOCK_PWLEN == 2 && LOCK_PW1 == b' ')),
+                assert!(RNG_N.0 == 2 && RNG_LEN_OK, "[C07] key generation makes exactly two 32-byte CSPRNG draws: the private key and the salt");
+                assert!(LOCK_N.0 == 1 && eq32(&LOCK_SK, &RNG_OUT[0]) && eq32(&LOCK_SALT, &RNG_OUT[1]), "[C07,C16] the private key is one draw, locked under a salt that is another draw");
+                assert!(LOCK_PW0 == b'p' && ((!PASS_SPACE && LOCK_PWLEN.0 == 1) || (PASS_SPACE && LOCK_PWLEN.0 == 2 && LOCK_PW1 == b' ')),
                         "[C16,C14] the key is locked under exactly the password the user gave (leading/trailing whitespace included), so that it unlocks with it");
-                assert!(DERIVE_N == 1 && eq32(&DERIVE_IN, &RNG_OUT[0]) && ENCPK_N == 1 && eq32(&ENCPK_IN, &DERIVE_OUT), "[C16] the PublicKey line is the encoding of the X25519 public key of that private key");
-                assert!(SER_N == 1, "[C14,C17] one [Key] section is written");
+                assert!(DERIVE_N.0 == 1 && eq32(&DERIVE_IN, &RNG_OUT[0]) && ENCPK_N.0 == 1 && eq32(&ENCPK_IN, &DERIVE_OUT), "[C16] the PublicKey line is the encoding of the X25519 public key of that private key");
+                assert!(SER_N.0 == 1, "[C14,C17] one [Key] section is written");
             }
         }
         kani::cover!(ok && pre_exists && pre_len == 4);
         kani::cover!(ok && !pre_exists);
         kani::cover!(!ok && pre_exists);
+        crate::keyring::verif_keyring::env_guard();
     }
     pub fn env_pass_model() -> Result<ZeroedString, anyhow::Error> { ask_pass_model("", true) }
 
@@ -367,17 +369,17 @@ pub(crate) mod verif_cmd {
         }
     }
     // the library call: k writes of one byte (+ flush) to the sink it is given, then the chosen result
-    pub static mut LIB_CALLS: usize = 0;
-    pub static mut LIB_WRITES: usize = 0;
+    pub static mut LIB_CALLS: crate::Z8 = crate::Z8(0);
+    pub static mut LIB_WRITES: crate::Z8 = crate::Z8(0);
     pub static mut LIB_FAIL: bool = false;
-    pub static mut LIB_FS_TOUCHED_BEFORE: usize = 0;
+    pub static mut LIB_FS_TOUCHED_BEFORE: crate::Z8 = crate::Z8(0);
     pub static mut LIB_SENDER: [u8; 32] = [0; 32];
     pub static mut LIB_RECIP_SK: [u8; 32] = [0; 32];
     fn lib_io<U: Write>(w: &mut U) -> bool {
         unsafe {
-            LIB_CALLS += 1;
-            LIB_FS_TOUCHED_BEFORE = FS.creates + FS.writes + FS.appends_opened;
-            let k = LIB_WRITES;
+            LIB_CALLS.0 += 1;
+            LIB_FS_TOUCHED_BEFORE.0 = FS.creates + FS.writes + FS.appends_opened;
+            let k = LIB_WRITES.0;
             if k >= 1 { if w.write_all(&[0x41]).is_err() || w.flush().is_err() { return false; } }
             if k >= 2 { if w.write_all(&[0x42]).is_err() || w.flush().is_err() { return false; } }
             !LIB_FAIL
@@ -443,7 +445,7 @@ pub(crate) mod verif_cmd {
             LIB_FAIL = kani::any();
             let k: usize = kani::any();
             kani::assume(k <= 2);
-            LIB_WRITES = k;
+            LIB_WRITES.0 = k;
         }
         let infile = if unsafe { USE_STDIN } { None } else { Some(String::from("i")) };
         let outfile = if unsafe { USE_STDOUT } { None } else { Some(String::from("o")) };
@@ -457,11 +459,11 @@ pub(crate) mod verif_cmd {
         unsafe {
             if USE_STDOUT {
                 assert!(FS.creates == 0 && FS.writes == 0 && FS.exists == pre_exists && FS.len == plen, "[C12,C13] with stdout as destination no file is created or touched");
-                if LIB_CALLS == 1 { assert!(STDOUT_WRITES == LIB_WRITES, "[C12] everything the library writes reaches stdout"); }
-                if TTY_OUT { assert!(LIB_CALLS == 0 && !ok, "[C12] binary output is refused when stdout is a terminal"); }
+                if LIB_CALLS.0 == 1 { assert!(STDOUT_WRITES.0 == LIB_WRITES.0, "[C12] everything the library writes reaches stdout"); }
+                if TTY_OUT { assert!(LIB_CALLS.0 == 0 && !ok, "[C12] binary output is refused when stdout is a terminal"); }
             }
-            if USE_STDIN && TTY_IN { assert!(LIB_CALLS == 0 && !ok, "[C12] reading from stdin is refused when stdin is a terminal (nothing was piped in)"); }
-            if !(USE_STDIN && TTY_IN) && !(USE_STDOUT && TTY_OUT) && !ASK_FAIL && (USE_STDIN || IN_EXISTS) && LIB_CALLS == 0 && PRECHECKS_PASS {
+            if USE_STDIN && TTY_IN { assert!(LIB_CALLS.0 == 0 && !ok, "[C12] reading from stdin is refused when stdin is a terminal (nothing was piped in)"); }
+            if !(USE_STDIN && TTY_IN) && !(USE_STDOUT && TTY_OUT) && !ASK_FAIL && (USE_STDIN || IN_EXISTS) && LIB_CALLS.0 == 0 && PRECHECKS_PASS {
                 assert!(false, "[C12] with every pre-check passing the operation is carried out whichever way input and output are wired");
             }
         }
@@ -472,17 +474,17 @@ pub(crate) mod verif_cmd {
         unsafe {
             assert!(!FS.overflow, "[LIMIT] harness bound: file model holds 8 bytes");
             assert!(FS.removes == 0, "[C13,C12] no command ever removes or renames the output path (a failure leaves the authenticated prefix / the old file in place)");
-            assert!(LIB_CALLS <= 1, "[C12] the library entry point is called at most once");
-            if LIB_CALLS == 0 {
+            assert!(LIB_CALLS.0 <= 1, "[C12] the library entry point is called at most once");
+            if LIB_CALLS.0 == 0 {
                 assert!(!ok, "[C12] success is never reported without the operation having been carried out");
                 assert!(FS.creates == 0 && FS.writes == 0 && FS.exists == pre_exists && FS.len == plen, "[C13] a command that fails before the library call leaves the output path untouched");
             } else {
-                assert!(LIB_FS_TOUCHED_BEFORE == 0, "[C13] the output file is neither created nor written before the library call");
+                assert!(LIB_FS_TOUCHED_BEFORE.0 == 0, "[C13] the output file is neither created nor written before the library call");
                 assert!(ok == !LIB_FAIL, "[C12,C10,C03,C04] exit status = result of the library call: no error kind (authentication, trailing data, chunk length, failed read / write / flush) is swallowed, success is never manufactured");
-                if LIB_WRITES == 0 || USE_STDOUT {
+                if LIB_WRITES.0 == 0 || USE_STDOUT {
                     assert!(FS.creates == 0 && FS.exists == pre_exists && FS.len == plen, "[C13] if the library fails before its first write (bad header, wrong key, refused exchange) the output path is untouched");
                 } else {
-                    assert!(FS.creates == 1 && FS.len == LIB_WRITES && FS.data[0] == 0x41 && (LIB_WRITES < 2 || FS.data[1] == 0x42), "[C13,C12] the output file holds exactly what the library wrote (the authenticated prefix), nothing else");
+                    assert!(FS.creates == 1 && FS.len == LIB_WRITES.0 && FS.data[0] == 0x41 && (LIB_WRITES.0 < 2 || FS.data[1] == 0x42), "[C13,C12] the output file holds exactly what the library wrote (the authenticated prefix), nothing else");
                 }
             }
         }
@@ -491,9 +493,9 @@ pub(crate) mod verif_cmd {
     // E-OS: the process's stdout as a sink that accepts everything. `Box<dyn Write>` dispatch makes `Stdout` a candidate
     // receiver of every write the library model performs even when the output is a file; std's real implementation
     // (ReentrantLock, ThreadId, LineWriter, futex) is environment.
-    pub static mut STDOUT_WRITES: usize = 0;
-    pub fn stdout_write_model(_s: &mut std::io::Stdout, buf: &[u8]) -> std::io::Result<usize> { unsafe { STDOUT_WRITES += 1; } Ok(buf.len()) }
-    pub fn stdout_write_all_model(_s: &mut std::io::Stdout, _buf: &[u8]) -> std::io::Result<()> { unsafe { STDOUT_WRITES += 1; } Ok(()) }
+    pub static mut STDOUT_WRITES: crate::Z8 = crate::Z8(0);
+    pub fn stdout_write_model(_s: &mut std::io::Stdout, buf: &[u8]) -> std::io::Result<usize> { unsafe { STDOUT_WRITES.0 += 1; } Ok(buf.len()) }
+    pub fn stdout_write_all_model(_s: &mut std::io::Stdout, _buf: &[u8]) -> std::io::Result<()> { unsafe { STDOUT_WRITES.0 += 1; } Ok(()) }
     pub fn stdout_flush_model(_s: &mut std::io::Stdout) -> std::io::Result<()> { Ok(()) }
     pub fn stdout_write_vectored_model(_s: &mut std::io::Stdout, _b: &[std::io::IoSlice<'_>]) -> std::io::Result<usize> { Ok(0) }
     pub fn stdout_is_write_vectored_model(_s: &std::io::Stdout) -> bool { false }
@@ -510,10 +512,10 @@ pub(crate) mod verif_cmd {
 
     /// `std::io::stdout()` / `stdin()`: handles to the process streams. Both are one `&'static` to a lazily initialised
     /// global (OnceLock/futex internals); every method reachable on them is stubbed above, so the reference is never followed.
-    pub fn stdout_handle_model() -> std::io::Stdout { unsafe { STDOUT_OPENS += 1; core::mem::transmute::<usize, std::io::Stdout>(0x1000) } }
-    pub fn stdin_handle_model() -> std::io::Stdin { unsafe { STDIN_OPENS += 1; core::mem::transmute::<usize, std::io::Stdin>(0x2000) } }
-    pub static mut STDOUT_OPENS: usize = 0;
-    pub static mut STDIN_OPENS: usize = 0;
+    pub fn stdout_handle_model() -> std::io::Stdout { unsafe { STDOUT_OPENS.0 += 1; core::mem::transmute::<usize, std::io::Stdout>(0x1000) } }
+    pub fn stdin_handle_model() -> std::io::Stdin { unsafe { STDIN_OPENS.0 += 1; core::mem::transmute::<usize, std::io::Stdin>(0x2000) } }
+    pub static mut STDOUT_OPENS: crate::Z8 = crate::Z8(0);
+    pub static mut STDIN_OPENS: crate::Z8 = crate::Z8(0);
 
     macro_rules! cmd_stubs { ($f:item) => {
         #[kani::proof]
@@ -573,9 +575,9 @@ pub(crate) mod verif_cmd {
         core::mem::forget(r);
         check_common(ok, plen, pre, pre_exists);
         unsafe {
-            if LIB_CALLS == 1 {
-                assert!(UNLOCK_N >= 1 && eq32(&LIB_RECIP_SK, &UNLOCK_SK), "[C05,C12] decryption uses the private key unlocked from the named keyring entry");
-                if ok { assert!(ENCPK_N == 1 && eq32(&ENCPK_IN, &LIB_SENDER), "[C05,C12] the sender is looked up by the encoding of exactly the key the library authenticated"); }
+            if LIB_CALLS.0 == 1 {
+                assert!(UNLOCK_N.0 >= 1 && eq32(&LIB_RECIP_SK, &UNLOCK_SK), "[C05,C12] decryption uses the private key unlocked from the named keyring entry");
+                if ok { assert!(ENCPK_N.0 == 1 && eq32(&ENCPK_IN, &LIB_SENDER), "[C05,C12] the sender is looked up by the encoding of exactly the key the library authenticated"); }
             }
         }
         ok
@@ -585,8 +587,9 @@ pub(crate) mod verif_cmd {
     pub fn cmd_decrypt_flow() {
         let ok = decrypt_flow(String::from("a"));
         kani::cover!(ok);
-        kani::cover!(!ok && unsafe { LIB_CALLS == 1 && LIB_WRITES == 1 });
-        kani::cover!(!ok && unsafe { LIB_CALLS == 0 });
+        kani::cover!(!ok && unsafe { LIB_CALLS.0 == 1 && LIB_WRITES.0 == 1 });
+        kani::cover!(!ok && unsafe { LIB_CALLS.0 == 0 });
+        crate::keyring::verif_keyring::env_guard();
     } }
     cmd_stubs! {
     /// C12/C13: `decrypt -t <b|z>`: an entry without private key, or no such entry: always fails before the library call.
@@ -594,9 +597,10 @@ pub(crate) mod verif_cmd {
         let c: u8 = kani::any();
         kani::assume(c == b'b' || c == b'z');
         let ok = decrypt_flow(name_of(c));
-        assert!(unsafe { LIB_CALLS } == 0, "[C12,C05] decryption is never attempted for a name that has no private key in the keyring");
+        assert!(unsafe { LIB_CALLS.0 } == 0, "[C12,C05] decryption is never attempted for a name that has no private key in the keyring");
         kani::cover!(!ok && c == b'b');
         kani::cover!(!ok && c == b'z');
+        crate::keyring::verif_keyring::env_guard();
     } }
 
     fn encrypt_flow(to: String, from: String) -> bool {
@@ -607,8 +611,8 @@ pub(crate) mod verif_cmd {
         core::mem::forget(r);
         check_common(ok, plen, pre, pre_exists);
         unsafe {
-            if LIB_CALLS == 1 {
-                assert!(UNLOCK_N >= 1 && eq32(&LIB_RECIP_SK, &UNLOCK_SK), "[C05,C12] encryption signs with the private key unlocked from the sender's keyring entry");
+            if LIB_CALLS.0 == 1 {
+                assert!(UNLOCK_N.0 >= 1 && eq32(&LIB_RECIP_SK, &UNLOCK_SK), "[C05,C12] encryption signs with the private key unlocked from the sender's keyring entry");
                 assert!(FRESH_OK, "[C07] the CLI leaves ephemeral key and payload key to the library's CSPRNG (None, None, None)");
             }
         }
@@ -621,8 +625,9 @@ pub(crate) mod verif_cmd {
         kani::assume(c == b'a' || c == b'b');
         let ok = encrypt_flow(name_of(c), String::from("a"));
         kani::cover!(ok && c == b'b');
-        kani::cover!(!ok && unsafe { LIB_CALLS == 1 });
-        kani::cover!(!ok && unsafe { LIB_CALLS == 0 });
+        kani::cover!(!ok && unsafe { LIB_CALLS.0 == 1 });
+        kani::cover!(!ok && unsafe { LIB_CALLS.0 == 0 });
+        crate::keyring::verif_keyring::env_guard();
     } }
     cmd_stubs! {
     /// C12/C13: `encrypt` with a sender that has no private key (b) or does not exist (z), or a recipient that does not exist.
@@ -635,7 +640,8 @@ pub(crate) mod verif_cmd {
         let ok = encrypt_flow(name_of(t), name_of(f));
         kani::cover!(!ok && t == b'z');
         kani::cover!(!ok && f == b'b');
-        assert!(unsafe { LIB_CALLS } == 0, "[C12,C05] encryption is never attempted with an unknown recipient or a sender without private key");
+        assert!(unsafe { LIB_CALLS.0 } == 0, "[C12,C05] encryption is never attempted with an unknown recipient or a sender without private key");
+        crate::keyring::verif_keyring::env_guard();
     } }
 
     cmd_stubs! {
@@ -648,13 +654,14 @@ pub(crate) mod verif_cmd {
         core::mem::forget(r);
         check_common(ok, plen, pre, pre_exists);
         unsafe {
-            if LIB_CALLS == 1 {
-                assert!(RNG_N == 1 && RNG_LEN_OK && eq32(&PE_SALT, &RNG_OUT[0]), "[C07] the salt is one fresh 32-byte CSPRNG draw, used for nothing else");
+            if LIB_CALLS.0 == 1 {
+                assert!(RNG_N.0 == 1 && RNG_LEN_OK && eq32(&PE_SALT, &RNG_OUT[0]), "[C07] the salt is one fresh 32-byte CSPRNG draw, used for nothing else");
                 assert!(PE_PW0 == b'p', "[C02,C12] the file is encrypted under the password the user gave");
             }
         }
         kani::cover!(ok);
-        kani::cover!(!ok && unsafe { LIB_CALLS == 0 });
+        kani::cover!(!ok && unsafe { LIB_CALLS.0 == 0 });
+        crate::keyring::verif_keyring::env_guard();
     } }
 
     cmd_stubs! {
@@ -666,9 +673,10 @@ pub(crate) mod verif_cmd {
         let ok = r.is_ok();
         core::mem::forget(r);
         check_common(ok, plen, pre, pre_exists);
-        unsafe { if LIB_CALLS == 1 { assert!(PE_PW0 == b'p', "[C02,C12] the file is decrypted under the password the user gave"); } }
+        unsafe { if LIB_CALLS.0 == 1 { assert!(PE_PW0 == b'p', "[C02,C12] the file is decrypted under the password the user gave"); } }
         kani::cover!(ok);
-        kani::cover!(!ok && unsafe { LIB_CALLS == 1 && LIB_WRITES == 2 });
+        kani::cover!(!ok && unsafe { LIB_CALLS.0 == 1 && LIB_WRITES.0 == 2 });
+        crate::keyring::verif_keyring::env_guard();
     } }
 
     /// wiring is concrete per harness (a solver-chosen wiring doubled the instance and ran out of memory at 36 GB)
@@ -700,33 +708,138 @@ pub(crate) mod verif_cmd {
     pub fn cmd_pass_decrypt_stdio() {
         set_stdio(true, true);
         let ok = pass_decrypt_wired();
-        kani::cover!(ok && unsafe { LIB_WRITES == 2 });
+        kani::cover!(ok && unsafe { LIB_WRITES.0 == 2 });
         kani::cover!(!ok && unsafe { TTY_OUT });
         kani::cover!(!ok && unsafe { TTY_IN });
+        crate::keyring::verif_keyring::env_guard();
     } }
     cmd_stubs! {
     /// C12 (wiring): `password decrypt FILE` to stdout.
     pub fn cmd_pass_decrypt_to_stdout() {
         set_stdio(false, true);
         let ok = pass_decrypt_wired();
-        kani::cover!(ok && unsafe { LIB_WRITES == 2 });
+        kani::cover!(ok && unsafe { LIB_WRITES.0 == 2 });
+        crate::keyring::verif_keyring::env_guard();
+    } }
+    cmd_stubs! {
+    /// C12 (wiring): `password decrypt -o FILE` from stdin.
+    pub fn cmd_pass_decrypt_from_stdin() {
+        set_stdio(true, false);
+        let ok = pass_decrypt_wired();
+        kani::cover!(ok && unsafe { LIB_WRITES.0 == 2 });
+        kani::cover!(!ok && unsafe { TTY_IN });
+        crate::keyring::verif_keyring::env_guard();
     } }
     cmd_stubs! {
     /// C12 (wiring): `password encrypt` as a filter: stdin -> stdout.
     pub fn cmd_pass_encrypt_stdio() {
         set_stdio(true, true);
         let ok = pass_encrypt_wired();
-        kani::cover!(ok && unsafe { LIB_WRITES == 2 });
+        kani::cover!(ok && unsafe { LIB_WRITES.0 == 2 });
         kani::cover!(!ok && unsafe { TTY_IN });
+        crate::keyring::verif_keyring::env_guard();
     } }
     cmd_stubs! {
     /// C12 (wiring): `password encrypt -o FILE` from stdin.
     pub fn cmd_pass_encrypt_from_stdin() {
         set_stdio(true, false);
         let ok = pass_encrypt_wired();
-        kani::cover!(ok && unsafe { LIB_WRITES == 2 });
+        kani::cover!(ok && unsafe { LIB_WRITES.0 == 2 });
         kani::cover!(!ok && unsafe { TTY_IN });
+        crate::keyring::verif_keyring::env_guard();
     } }
+
+    // ================================================================= open_keyring: -k versus KESTREL_KEYRING
+    // (one static with a unique initialiser: a lone `static mut KR.env_reads: usize = 0` was the static that Kani resolved
+    // liballoc's Cap::ZERO to in this harness - see env_guard)
+    pub struct KrState { pub magic: u64, pub env: u8, pub env_reads: usize, pub file_kind: u8, pub file_reads: usize, pub path0: u8 }
+    pub static mut KR: KrState = KrState { magic: 0x4b52_5f53_5441_5445, env: 0, env_reads: 0, file_kind: 0, file_reads: 0, path0: 0 };
+    pub fn kr_env_model<K: AsRef<std::ffi::OsStr>>(_key: K) -> Result<String, std::env::VarError> {
+        unsafe {
+            KR.env_reads += 1;
+            match KR.env {
+                0 => Ok(String::from("e")),
+                1 => Err(std::env::VarError::NotPresent),
+                _ => Err(std::env::VarError::NotUnicode(std::ffi::OsString::from("x"))),
+            }
+        }
+    }
+    // KR.env: 0 = set to "e", 1 = not present, 2 = not unicode; KR.file_kind: 0 = a valid one-key keyring, 1 = a keyring with an
+    // incomplete section, 2 = not a keyring, 3 = missing
+    pub fn fs_read_model<P: AsRef<Path>>(p: P) -> std::io::Result<Vec<u8>> {
+        let b = p.as_ref().as_os_str().as_encoded_bytes();
+        unsafe {
+            KR.file_reads += 1;
+            KR.path0 = if b.len() == 1 { b[0] } else { 0 };
+            match KR.file_kind {
+                0 => Ok(b"[Key]\nName = a\nPublicKey = P\n".to_vec()),
+                1 => Ok(b"[Key]\nName = a\n".to_vec()),
+                2 => Ok(b"junk\n".to_vec()),
+                _ => Err(std::io::Error::from(std::io::ErrorKind::NotFound)),
+            }
+        }
+    }
+    /// String::from_utf8 on ASCII bytes (std's validator takes a word-at-a-time path chosen by the buffer's alignment,
+    /// which the model checker treats as unknown); a non-ASCII byte is outside the harness ([LIMIT]).
+    pub fn from_utf8_ascii_model(v: Vec<u8>) -> Result<String, std::string::FromUtf8Error> {
+        let mut i = 0;
+        while i < v.len() { if v[i] >= 0x80 { unsafe { crate::keyring::verif_keyring::STR_LIMIT = true; } } i += 1; }
+        Ok(unsafe { String::from_utf8_unchecked(v) })
+    }
+    /// C12 "-k or KESTREL_KEYRING": the keyring is read from the path given with -k, else from the path in the environment
+    /// variable (never both, never anything else); a missing / non-unicode variable, a missing file and a malformed keyring are errors; the same file gives the same keyring either way.
+    #[kani::proof]
+    #[kani::stub(std::env::var, kr_env_model)]
+    #[kani::stub(std::fs::read, fs_read_model)]
+    #[kani::stub(std::string::String::from_utf8, from_utf8_ascii_model)]
+    #[kani::stub(std::backtrace::Backtrace::capture, bt_cut)]
+    #[kani::stub(core::fmt::write, fmtwrite_cut)]
+    #[kani::stub(alloc::fmt::format, format_cut)]
+    #[kani::stub(str::trim, crate::keyring::verif_keyring::trim_model)]
+    #[kani::stub(std::string::String::retain, crate::keyring::verif_keyring::retain_model)]
+    #[kani::stub(<core::str::Lines as core::iter::Iterator>::next, crate::keyring::verif_keyring::lines_next_model)]
+    #[kani::stub(str::split_once, crate::keyring::verif_keyring::split_once_model)]
+    #[kani::unwind(34)]
+    pub fn cmd_open_keyring() {
+        unsafe { ct_codecs::kani_model::M.att_len = 36; }
+        let mut kind = 0u8;
+        while kind < 4 {
+            let mut via_env = 0u8;
+            while via_env < 2 {
+                let mut envk = 0u8;
+                while envk < 3 {
+                    if via_env == 1 || envk == 0 {
+                        unsafe { KR.file_kind = kind; KR.env = envk; KR.env_reads = 0; KR.file_reads = 0; KR.path0 = 0; }
+                        let r = open_keyring(if via_env == 1 { None } else { Some(String::from("k")) });
+                        let ok = r.is_ok();
+                        unsafe {
+                            if via_env == 0 {
+                                assert!(KR.env_reads == 0 && KR.file_reads == 1 && KR.path0 == b'k', "[C12] with -k the keyring is read from exactly that path; the environment is not consulted");
+                                assert!(ok == (kind == 0), "[C12,C17] -k: Ok iff the file exists and parses as a keyring");
+                            } else {
+                                assert!(KR.env_reads == 1, "[C12] without -k the location comes from KESTREL_KEYRING");
+                                if envk != 0 { assert!(!ok && KR.file_reads == 0, "[C12] an unset or non-unicode KESTREL_KEYRING is an error; no file is read"); }
+                                else {
+                                    assert!(KR.file_reads == 1 && KR.path0 == b'e', "[C12] the keyring is read from exactly the path in KESTREL_KEYRING");
+                                    assert!(ok == (kind == 0), "[C12,C17] KESTREL_KEYRING: Ok iff the file exists and parses - the same outcome as with -k");
+                                }
+                            }
+                            if let Ok(k) = &r {
+                                let keys = crate::keyring::verif_keyring::keys_of(k);
+                                assert!(keys.len() == 1 && keys[0].name == "a" && keys[0].public_key.as_str() == "P", "[C12,C17] the same file gives the same keyring whichever way it was named");
+                            }
+                        }
+                        core::mem::forget(r);
+                    }
+                    envk += 1;
+                }
+                via_env += 1;
+            }
+            kind += 1;
+        }
+        assert!(!unsafe { crate::keyring::verif_keyring::STR_LIMIT }, "[LIMIT] E-STR models are exact for ASCII text only");
+        crate::keyring::verif_keyring::env_guard();
+    }
 
     // ================================================================= change-pass / extract-pub
     // a 112-character argument (the base64 length of 84 bytes) that is not one of the model's tokens
@@ -771,16 +884,17 @@ pub(crate) mod verif_cmd {
             let should = !ASK_FAIL && !NEWPASS_FAIL && !UNLOCK_FAIL && !ct_codecs::kani_model::M.att_err;
             assert!(ok == should, "[C12,C16] change-pass succeeds iff both passwords were obtained, the key string is well formed and the old password unlocks it");
             if ok {
-                assert!(UNLOCK_N == 1 && UNLOCK_BLOB0 == b'B' && UNLOCK_PW0 == b'p', "[C16,C07] the given locked key is unlocked with the OLD password");
-                assert!(LOCK_N == 1 && eq32(&LOCK_SK, &UNLOCK_SK), "[C16,C07] exactly the unlocked private key is re-locked, on every change - also when the new password equals the old one (the key keeps its identity, the salt does not)");
-                assert!(LOCK_PWLEN == 1 && LOCK_PW0 == (if NEWPASS_SAME { b'p' } else { b'q' }), "[C16] ... under the NEW password");
-                assert!(RNG_N == 1 && RNG_LEN_OK && eq32(&LOCK_SALT, &RNG_OUT[0]), "[C16,C07] ... and a fresh 32-byte CSPRNG salt (every change, whatever the passwords)");
+                assert!(UNLOCK_N.0 == 1 && UNLOCK_BLOB0 == b'B' && UNLOCK_PW0 == b'p', "[C16,C07] the given locked key is unlocked with the OLD password");
+                assert!(LOCK_N.0 == 1 && eq32(&LOCK_SK, &UNLOCK_SK), "[C16,C07] exactly the unlocked private key is re-locked, on every change - also when the new password equals the old one (the key keeps its identity, the salt does not)");
+                assert!(LOCK_PWLEN.0 == 1 && LOCK_PW0 == (if NEWPASS_SAME { b'p' } else { b'q' }), "[C16] ... under the NEW password");
+                assert!(RNG_N.0 == 1 && RNG_LEN_OK && eq32(&LOCK_SALT, &RNG_OUT[0]), "[C16,C07] ... and a fresh 32-byte CSPRNG salt (every change, whatever the passwords)");
             } else {
-                assert!(LOCK_N == 0, "[C12,C16] on failure nothing is re-locked");
+                assert!(LOCK_N.0 == 0, "[C12,C16] on failure nothing is re-locked");
             }
         }
         kani::cover!(ok && unsafe { NEWPASS_SAME });
         kani::cover!(!ok);
+        crate::keyring::verif_keyring::env_guard();
     } }
 
     key_cmd_stubs! {
@@ -798,26 +912,27 @@ pub(crate) mod verif_cmd {
             let should = !ASK_FAIL && !UNLOCK_FAIL && !ct_codecs::kani_model::M.att_err;
             assert!(ok == should, "[C12,C16] extract-pub succeeds iff the password was obtained, the key string is well formed and unlocks");
             if ok {
-                assert!(UNLOCK_N == 1 && UNLOCK_BLOB0 == b'B' && UNLOCK_PW0 == b'p', "[C16] the given locked key is unlocked with the given password");
-                assert!(DERIVE_N == 1 && eq32(&DERIVE_IN, &UNLOCK_SK), "[C16] the public key is derived from exactly the unlocked private key");
-                assert!(ENCPK_N == 1 && eq32(&ENCPK_IN, &DERIVE_OUT), "[C16] what is encoded for printing is that public key - never the private key");
-                assert!(LOCK_N == 0 && RNG_N == 0, "[C16] extraction changes nothing");
+                assert!(UNLOCK_N.0 == 1 && UNLOCK_BLOB0 == b'B' && UNLOCK_PW0 == b'p', "[C16] the given locked key is unlocked with the given password");
+                assert!(DERIVE_N.0 == 1 && eq32(&DERIVE_IN, &UNLOCK_SK), "[C16] the public key is derived from exactly the unlocked private key");
+                assert!(ENCPK_N.0 == 1 && eq32(&ENCPK_IN, &DERIVE_OUT), "[C16] what is encoded for printing is that public key - never the private key");
+                assert!(LOCK_N.0 == 0 && RNG_N.0 == 0, "[C16] extraction changes nothing");
             }
         }
         kani::cover!(ok);
         kani::cover!(!ok);
+        crate::keyring::verif_keyring::env_guard();
     } }
 
     // ================================================================= passwords from the environment
     pub static mut ENV_SET: bool = true;
-    pub static mut ENV_READS_OLD: usize = 0;
-    pub static mut ENV_READS_NEW: usize = 0;
+    pub static mut ENV_READS_OLD: crate::Z8 = crate::Z8(0);
+    pub static mut ENV_READS_NEW: crate::Z8 = crate::Z8(0);
     pub fn env_var_model<K: AsRef<std::ffi::OsStr>>(key: K) -> Result<String, std::env::VarError> {
         let k = key.as_ref().as_encoded_bytes();
         unsafe {
             // KESTREL_PASSWORD (16 bytes) vs KESTREL_NEW_PASSWORD (20 bytes)
             let new = k.len() == 20;
-            if new { ENV_READS_NEW += 1; } else { ENV_READS_OLD += 1; }
+            if new { ENV_READS_NEW.0 += 1; } else { ENV_READS_OLD.0 += 1; }
             if !ENV_SET { return Err(std::env::VarError::NotPresent); }
             // values with a leading space and a trailing newline: they must reach the key derivation unchanged
             if new { Ok(String::from(" q\n")) } else { Ok(String::from(" p\n")) }
@@ -852,12 +967,13 @@ pub(crate) mod verif_cmd {
                 let want: &[u8; 3] = if which == 2 { b" q\n" } else { b" p\n" };
                 assert!(b.len() == 3 && b[0] == want[0] && b[1] == want[1] && b[2] == want[2],
                         "[C16,C02,C14] the password taken from the environment is used byte for byte (leading/trailing whitespace and line endings included): the old one from KESTREL_PASSWORD, the new one of change-pass from KESTREL_NEW_PASSWORD");
-                if which == 2 { assert!(ENV_READS_NEW == 1 && ENV_READS_OLD == 0, "[C16] the NEW password comes from KESTREL_NEW_PASSWORD"); }
-                else { assert!(ENV_READS_OLD == 1 && ENV_READS_NEW == 0, "[C16,C02] the password comes from KESTREL_PASSWORD"); }
+                if which == 2 { assert!(ENV_READS_NEW.0 == 1 && ENV_READS_OLD.0 == 0, "[C16] the NEW password comes from KESTREL_NEW_PASSWORD"); }
+                else { assert!(ENV_READS_OLD.0 == 1 && ENV_READS_NEW.0 == 0, "[C16,C02] the password comes from KESTREL_PASSWORD"); }
             }
         }
         kani::cover!(which == 2 && r.is_ok());
         kani::cover!(r.is_err());
         core::mem::forget(r);
+        crate::keyring::verif_keyring::env_guard();
     }
 }
